@@ -10,6 +10,13 @@ every top-level expression's accept/reject by the 64-bit gate must equal the mod
 the whole tree from the generator's own description (`TREE`) and must reproduce the
 root annotation, `constant_value`, the gate verdict — or predict the crash.
 
+Every integer annotation is also checked for the canonical remainder of the inductive
+invariant `InvOk` (0 <= modular_value < modulus).  In every structure the synthesised
+`$size_in_*` / `$max_size_in_*` / `$min_size_in_*` are compared with the shape the model's
+`sizeExpr` assumes (`C05_size_bounds`), and an always-present field at a constant location
+must end within the annotated `$max_size_in_*` (model-free).  References to virtual fields
+are sent to the model as `(vref …)` nodes.
+
 Independent spec oracle (no model): every generated expression is evaluated over ℤ/Bool
 for enumerated (≤ 2^16 environments) or sampled leaf values; every aligned node's value
 must lie in γ(Python annotation); tightness of linear single-occurrence expressions is
